@@ -432,11 +432,35 @@ func c20Mautil(c *Ctx) {
 				}
 			}
 		}
+		// no other way to answer "equal": a return that can be true either follows both sorts, or is the empty /
+		// single-element case
+		shortcut := token.NoPos
+		for _, bl := range f.SSA.Blocks {
+			ret, ok := bl.Instrs[len(bl.Instrs)-1].(*ssa.Return)
+			if !ok || len(ret.Results) != 1 {
+				continue
+			}
+			if v, isConst := boolConst(c.RetX(ret, 0)); isConst && !v {
+				continue
+			}
+			afterSorts := len(sorts) >= 2
+			for _, srt := range sorts {
+				if !Precedes(srt.In, ret) {
+					afterSorts = false
+				}
+			}
+			_, empty := c.GuardedB(bl, Bin("==", Op("builtin", "len", Or(a, b)), Const("0")), true)
+			_, single := c.GuardedB(bl, Bin("==", Op("builtin", "len", Or(a, b)), Const("1")), true)
+			if !afterSorts && !empty && !single {
+				shortcut = ret.Pos()
+			}
+		}
+		c.Check(!shortcut.IsValid(), "C20.X4-helper-predicates", f.Name+" › no shortcut to 'equal'", f.SSA.Pos(), "every return that can be true follows both sorts, or is the empty / single-element case", "address-list equality can answer 'equal' at "+c.pos(shortcut)+" without the sorted element-by-element comparison (and outside the empty / single-element cases): multiplicities are not compared, or the answer depends on the argument order")
 		c.Check(sortedA && sortedB && pairwise && lenTest, "C20.X4-helper-predicates", f.Name+" › multiset equality", f.SSA.Pos(), "lengths equal, then both lists sorted by bytes and compared element by element", "address-list equality is not (same length ∧ pairwise equal after sorting both): lists with different multiplicities compare equal, or order matters")
 	} else {
 		c.Unk("C20.X4-helper-predicates", "mautil.MultiaddrsEqual", token.NoPos, "not found")
 	}
-	c.Floor("C20.X4-helper-predicates", 6)
+	c.Floor("C20.X4-helper-predicates", 7)
 }
 
 func firstRetAny(c *Ctx, f *Fn) *X {
